@@ -92,6 +92,14 @@ def generate(tier, rng):
             # the four extreme-code corners (they bound every other pair) and one more pair, as arrays
             yield 'AR %s optimal raw %s %s %s %s %s %s %s' % (op, rng.choice(['operator', 'function']), fm(x), fm(y), rng.choice(ROUNDS), rng.choice(OVFS),
                                                               L([lox, lox, hix, hix, a]), L([loy, hiy, loy, hiy, b]))
+        if rng.random() < 0.5:
+            # arrays of every sign pattern: all on one side of zero, one extreme among small codes, small maximum with a large negative
+            # element (whatever a carrier rule looks at - the word, the maximum, the first element - the exact result is owed)
+            pick = lambda lo, hi: rng.choice([lo, lo + 1, lo + rng.randint(0, 7), rng.randint(-9, 9), 0, 1, -1, hi, hi - rng.randint(0, 7), rng.randint(lo, hi)])
+            k = rng.choice([2, 3, 3, 4])
+            aa = [max(lox, min(hix, pick(lox, hix))) for _ in range(k)]
+            bb = [max(loy, min(hiy, pick(loy, hiy))) for _ in range(rng.choice([1, k]))]
+            yield 'AR %s optimal raw %s %s %s %s %s %s %s' % (op, rng.choice(['operator', 'function']), fm(x), fm(y), rng.choice(ROUNDS), rng.choice(OVFS), L(aa), L(bb))
     n_bi = 3000 if tier == 'quick' else 80000
     for _ in range(n_bi):
         s = rng.random() < 0.5
